@@ -2700,12 +2700,14 @@ class sptensor:
         if isinstance(other, ttb.tensor):
             # Find where their zeros interact
             otherzerosubs, _ = (other == 0).find()
-            zzerosubs = otherzerosubs[(self[otherzerosubs] == 0).transpose()[0], :]
+            zzerosubs = otherzerosubs[
+                (np.atleast_2d(self[otherzerosubs]) == 0).transpose()[0], :
+            ]
 
             # Find where their nonzeros intersect
             znzsubs = np.empty(shape=(0, other.ndims), dtype=int)
             if self.nnz > 0:
-                othervals = other[self.subs]
+                othervals = np.atleast_1d(other[self.subs])
                 znzsubs = self.subs[(othervals[:, None] == self.vals).transpose()[0], :]
 
             return sptensor(
